@@ -93,7 +93,7 @@ def run_e2e(args):
             DI.ThreadPoolExecutor = RealTPE
             for cls, o in origs.items():
                 cls.process_and_list = o
-        enum = I.enumeration(Dataset(root))
+        enum, rec["enum_error"] = I.safe_enumeration(Dataset(root))
         rec["enumerated"] = {s: [x for sh in enum.get(s, []) for x in sh] for s in order}
         out.append(rec)
         shutil.rmtree(root, ignore_errors=True)
@@ -144,6 +144,9 @@ def run(ctx):
         recs += child.call("harness.checks.c03", "run_e2e", cases[i:i + 6], timeout=1500)
     nruns, distinct = 0, set()
     breqs, bobs = [], []
+    for r in recs:
+        if r.get("enum_error"):
+            ctx.report({"kind": "listing-error"}, f"enumerating the shards of a valid dataset failed: {r['enum_error']}", {"case": r["case"]})
     for r in recs:
         for split, order in r["order"].items():
             if not order:
